@@ -1,0 +1,18 @@
+//go:build verif
+
+package device
+
+// VerifPoolMax, when non-zero at NewDevice time, bounds the five pools so
+// that WaitPool.count is maintained (it is only maintained while max != 0).
+var VerifPoolMax uint32
+
+func (device *Device) verifPoolsInit() {
+	if VerifPoolMax == 0 {
+		return
+	}
+	device.pool.inboundElementsContainer.max = VerifPoolMax
+	device.pool.outboundElementsContainer.max = VerifPoolMax
+	device.pool.messageBuffers.max = VerifPoolMax
+	device.pool.inboundElements.max = VerifPoolMax
+	device.pool.outboundElements.max = VerifPoolMax
+}
